@@ -38,11 +38,20 @@ func genCase(t *rapid.T) arith.Case {
 		if n > 30 {
 			n = rapid.IntRange(1, 30).Draw(t, "pplen2")
 		}
+		if c.Op == "cbrt" && c.Ctx.P >= 4 && n < 4 && gen.Pick(t, 4, "pp4") != 0 {
+			// most contexts have a small precision and most roots drawn for them one or two digits,
+			// which an iteration gets right whatever its last step does
+			hi := int(c.Ctx.P)
+			if hi > 12 {
+				hi = 12
+			}
+			n = rapid.IntRange(4, hi).Draw(t, "pplen4")
+		}
 		r := gen.DigitsN(t, n, 9, "pproot") // random digits
 		if len(r) < 4 && c.Ctx.P >= 4 && gen.Pick(t, 2, "pplong") == 0 {
 			r += gen.DigitsN(t, 4-len(r), 9, "ppmore")
 		}
-		if len(r) >= 3 && gen.Pick(t, 2, "pplow") == 0 {
+		if len(r) >= 3 && gen.Pick(t, 3, "pplow") == 0 {
 			// roots in the lowest part of their decade (1.00.. to 1.19..), where a unit of the last
 			// place is largest relative to the value and an iteration that stops on a relative
 			// criterion is furthest from the root in units
@@ -180,6 +189,23 @@ func check(c arith.Case, st *core.Stats) error {
 	if fits {
 		if !ref.SameValue(o.D, want) || o.Res.Inexact() {
 			return fmt.Errorf("%v: perfect cube whose root %v fits the precision, got %s flags=%s", c, want, core.Show(o.D), core.FlagStr(o.Res))
+		}
+		if ref.NDigits(want.Coeff) >= 4 {
+			// "in every rounding mode": the same operand under the other modes as well (roots of
+			// four and more digits, where the iteration has something to get wrong)
+			st.Class("perfect-cube-in-all-rounding-modes")
+			for _, m := range gen.Modes[:8] {
+				if m == c.Ctx.Rounding {
+					continue
+				}
+				cm := c
+				cm.Ctx.Rounding = m
+				var om arith.Out
+				core.Guard(st, func() { om = arith.Exec(cm) })
+				if om.Err != nil || !ref.SameValue(om.D, want) || om.Res.Inexact() {
+					return fmt.Errorf("%v: perfect cube whose root %v fits the precision, got %s flags=%s err=%v", cm, want, core.Show(om.D), core.FlagStr(om.Res), om.Err)
+				}
+			}
 		}
 		return nil
 	}
